@@ -6,7 +6,7 @@ from .. import core
 from .. import gen_refs
 from .. import gen_schema as gs
 from .. import vjudge, wire
-from ..wire import Obj
+from ..wire import Obj, Num
 
 ID = "C14"
 N_QUICK = 4000
@@ -49,6 +49,24 @@ def gen(rng, tier, n):
             else:
                 desc, _ = gsv.gen_desc(rng, fields, depth=2, big_int_p=0)
             ops.append({"op": "marshal", "args": {"desc": desc, "insts": [gs.gen_instance(rng, 2) for _ in range(2)]}, "meta": {"kw": 3, "marshal": True}})
+            continue
+        if r0 < 0.31:
+            # two (or three) schema resources of one document with ONE URI — an ill-formed but accepted document: which resource a
+            # reference through that URI reaches may be anything fixed, but it must be the same at every Resolve and in every process
+            d7 = rng.random() < 0.3
+            dk = "definitions" if d7 else "$defs"
+            k = rng.choice([2, 2, 3])
+            names = rng.sample(["A", "B", "C", "a", "m", "z", "0", "é"], k)
+            shape = rng.choice(["sibling", "root"])
+            dup = "dup.json" if shape == "sibling" else "r.json"
+            defs = Obj([(nm, Obj([("$id", dup), (dk, Obj([("T", Obj([("const", nm)]))]))])) for nm in names])
+            defs.set("other", Obj([("$id", "other.json"), ("type", "string")]))
+            root = Obj(([("$schema", rng.choice(gs.D7_URIS))] if d7 else []) + [("$id", "http://x.test/c14/r.json"), (dk, defs)])
+            if shape == "root":
+                root.get(dk).set("T", Obj([("const", "root")]))
+            root.set("properties", Obj([("p", Obj([("$ref", dup + "#/" + dk + "/T")])), ("q", Obj([("$ref", "http://x.test/c14/" + dup)]))]))
+            insts = [Obj([("p", nm)]) for nm in names + ["root", "nomark"]] + [Obj([("q", Obj([(dk, Num("1"))]))]), Obj([("q", "s")])]
+            ops.append({"op": "purity", "args": {"schema": root, "insts": insts}, "meta": {"kw": 4, "dupuri": True}})
             continue
         if rng.random() < 0.7:
             draft = "2020" if rng.random() < 0.7 else "7"
@@ -114,6 +132,8 @@ def extra(ctx):
     diff = 0
     for o in ops:
         a, b = r1.get(o["id"], {}).get("go"), r2.get(o["id"], {}).get("go")
+        # error TEXTS are not compared (they may print addresses: `%+v` of a struct holding pointers)
+        a, b = [({k: v for k, v in x.items() if k not in ("detail", "rt_detail")} if isinstance(x, dict) else x) for x in (a, b)]
         if a != b and not ((a or {}).get("outcome") in ("crash", "timeout")):
             diff += 1
             if len(viol) < 1:
